@@ -1753,8 +1753,9 @@ Proof.
   - apply nb_consumer_turn.
   - reflexivity.
   - destruct (autodel s) as [|qn rest]; [reflexivity|].
-    pose proof (nb_vhost_delete_queue (negb (fx_delete_checks_first fx)) (s <| autodel := rest |>) qn false false) as Hd.
-    destruct (vhost_delete_queue _ (s <| autodel := rest |>) qn false false) as [[s1 e1] r1]. exact Hd.
+    destruct (get_queue _ qn) as [qu0|]; [|reflexivity]. destruct (q_autodel qu0); [|reflexivity].
+    pose proof (nb_vhost_delete_queue (negb (fx_delete_checks_first fx)) (s <| autodel := rest |>) qn true false) as Hd.
+    destruct (vhost_delete_queue _ (s <| autodel := rest |>) qn true false) as [[s1 e1] r1]. exact Hd.
   - reflexivity.
   - destruct (relay s) as [|u rest]; [reflexivity|]. destruct (get_msg _ u) as [m|]; [|reflexivity].
     destruct (m_conf m) as [[[? ?] ?]|]; reflexivity.
@@ -1858,8 +1859,9 @@ Proof.
   - cbn [fst]. apply TR0_vle; auto. apply V_queue_loop_turn. apply vle_refl.
   - destruct (autodel s) as [|qn rest]; [apply TR0_refl; auto|].
     assert (H0 : vle s (s <| autodel := rest |>)) by (vs; apply vle_refl).
-    pose proof (V_vhost_delete_queue s (negb (fx_delete_checks_first fx)) _ qn false false H0) as Hd.
-    destruct (vhost_delete_queue _ (s <| autodel := rest |>) qn false false) as [[s1 e1] r1]. apply TR0_vle; auto.
+    destruct (get_queue _ qn) as [qu0|]; [|apply TR0_vle; auto]. destruct (q_autodel qu0); [|apply TR0_vle; auto].
+    pose proof (V_vhost_delete_queue s (negb (fx_delete_checks_first fx)) _ qn true false H0) as Hd.
+    destruct (vhost_delete_queue _ (s <| autodel := rest |>) qn true false) as [[s1 e1] r1]. apply TR0_vle; auto.
   - apply TR0_mid; auto. apply (persist_tick_mid cfg fx).
   - apply TR0_mid; auto. apply (relay_step_mid cfg fx).
   - pose proof (conn_close_tr cfg fx s c Ha) as (Hc & _). destruct (conn_close cfg fx s c) as [s1 e1]. exact Hc.
@@ -2076,8 +2078,9 @@ Proof.
   - cbn [fst]. eapply B_vle; [|exact Hb]. apply V_queue_loop_turn. apply vle_refl.
   - destruct (autodel s) as [|qn rest]; [exact Hb|].
     assert (H0 : vle s (s <| autodel := rest |>)) by (vs; apply vle_refl).
-    pose proof (V_vhost_delete_queue s (negb (fx_delete_checks_first fx)) _ qn false false H0) as Hd.
-    destruct (vhost_delete_queue _ (s <| autodel := rest |>) qn false false) as [[s1 e1] r1]. eapply B_vle; eauto.
+    destruct (get_queue _ qn) as [qu0|]; [|eapply B_vle; eauto]. destruct (q_autodel qu0); [|eapply B_vle; eauto].
+    pose proof (V_vhost_delete_queue s (negb (fx_delete_checks_first fx)) _ qn true false H0) as Hd.
+    destruct (vhost_delete_queue _ (s <| autodel := rest |>) qn true false) as [[s1 e1] r1]. eapply B_vle; eauto.
   - apply B_tick; auto.
   - apply B_relay; auto.
   - apply B_ctick; auto.
@@ -3981,8 +3984,9 @@ Proof.
   - cbn [fst]. apply (BIx_qgrow s); auto. apply G_queue_loop_turn. apply qgrow_refl.
   - destruct (autodel s) as [|qn rest]; [exact H|].
     assert (H0 : BIx (s <| autodel := rest |>)) by (apply (BIx_qgrow s); auto; apply (G_sameqe s s); [reflexivity|reflexivity|apply qgrow_refl]).
-    pose proof (BIx_vhost_delete_queue (negb (fx_delete_checks_first fx)) _ qn false false H0) as Hd.
-    destruct (vhost_delete_queue _ (s <| autodel := rest |>) qn false false) as [[s1 e1] r1]. exact Hd.
+    destruct (get_queue _ qn) as [qu0|]; [|exact H0]. destruct (q_autodel qu0); [|exact H0].
+    pose proof (BIx_vhost_delete_queue (negb (fx_delete_checks_first fx)) _ qn true false H0) as Hd.
+    destruct (vhost_delete_queue _ (s <| autodel := rest |>) qn true false) as [[s1 e1] r1]. exact Hd.
   - cbn [fst]. apply (BIx_qgrow s); auto. apply fold_left_preserves; [intros; apply G_store_confirm; auto|].
     apply (G_sameqe s s); [reflexivity|reflexivity|apply qgrow_refl].
   - destruct (relay s) as [|u rest]; [exact H|].
